@@ -2,6 +2,7 @@
 // buffers sized from the schema node's physical type / type length, exact-size heap blocks (ASan),
 // byte-array results copied out before the next call on the same column reader.
 #pragma once
+#include <sys/syscall.h>
 #include <fcntl.h>
 #include <sys/stat.h>
 #include <unistd.h>
@@ -15,9 +16,9 @@ enum Mode { FREAD = 0, MMAP = 1, BUFFER = 2 };
 inline const char *modeName(int m) { return m == 0 ? "fread" : m == 1 ? "mmap" : "buffer"; }
 
 inline std::string tmpPath(const char *tag) {
-  static int counter = 0;
+  static thread_local int counter = 0;   // per thread, and the thread id is part of the name: concurrent readers never share a path
   char b[256];
-  snprintf(b, sizeof b, "./%s_%d_%d.parquet", tag, (int)getpid(), counter++ % 8);
+  snprintf(b, sizeof b, "./%s_%d_%d_%d.parquet", tag, (int)getpid(), (int)syscall(SYS_gettid), counter++ % 8);
   return b;
 }
 inline bool writeFile(const std::string &p, const uint8_t *d, size_t n) {
